@@ -184,10 +184,21 @@ def run(ctx):
 
     class _Budget(Exception):
         pass
-    for behaviour in ('finishes-in-time', 'dies-when-terminated', 'never-dies'):
+    # (the grader may itself be inside an `except` block when it makes the call: sys.exc_info() is then not empty in
+    # the grader thread, which is where terminate() runs)
+    for behaviour in ('finishes-in-time', 'dies-when-terminated', 'never-dies', 'never-dies:grader-handling-an-exception'):
         rec = symexec.Recorder()
+        grader_busy = behaviour.endswith('grader-handling-an-exception')
+        behaviour = behaviour.split(':')[0]
         state = {'alive': behaviour != 'finishes-in-time', 'calls': 0}
-        thread = Obj('student-thread', exc_info=(None, None, None), daemon=True)
+        thread = Obj('student-thread', exc_info=(None, None, None), daemon=True, __open__=True)
+        thread.attrs['__classdef__'] = tmod.cls('InterruptableThread')
+
+        def _grader_exc_class(*a):
+            return Obj('grader-exception', exc_kind='KeyError')
+        _grader_exc_class._fd_callable = True
+        grader_exc_info = (_grader_exc_class, Obj('grader-exception', exc_kind='KeyError'), Obj('traceback')) \
+            if grader_busy else (None, None, None)
 
         def _count(name, ret=None, state=state, rec=rec):
             def f(*a, **k):
@@ -209,10 +220,12 @@ def run(ctx):
         symexec.method(thread, 'join', _count('join'))
         symexec.method(thread, 'is_alive', _count('is_alive', ret=lambda: state['alive']))
         symexec.method(thread, 'isAlive', _count('is_alive', ret=lambda: state['alive']))
-        symexec.method(thread, 'terminate', _terminate)
+        # terminate() itself is pedal's (interpreted through the class); what it uses to interrupt is modelled
         symexec.method(thread, 'raise_exception', _terminate)
+        symexec.method(thread, '_async_raise', _terminate)
         fd = symexec.new_fd(sym, tmod, calls={
             'InterruptableThread': rec.stub('InterruptableThread', ret=thread),
+            'sys.exc_info': lambda: grader_exc_info,
             'TimeoutError': lambda *a, **k: Obj('TimeoutError', exc_kind='TimeoutError', args=a),
             'time.sleep': _count('sleep'), 'sleep': _count('sleep')},
             extra={'threading': 'threading-module', 'ctypes': 'ctypes-module'})
@@ -236,6 +249,8 @@ def run(ctx):
         outcome = 'keeps waiting (more than 60 calls on the thread: %s ...)' % [e[0] for e in rec.events[:8]] if hung \
             else ('raises %s' % raised.kind if raised is not None else 'returns') + \
             ' after %s' % [e[0] for e in rec.events]
+        if grader_busy:
+            behaviour += ':grader-handling-an-exception'
         ctx.check(ok, 'R4', 'timeout()[%s]' % behaviour, tmod, to,
                   "with a student thread that %s, timeout() %s; it must %s" % (behaviour.replace('-', ' '), outcome, want),
                   "student code `while True:\n    try: pass\n    except BaseException: pass` (or a thread blocked in "
